@@ -162,19 +162,19 @@ def run(model, col, tier):
     # ---------------- R20.3 ----------------------------------------------------
     loc = model.cls(ASTF, "Location")
     mg = loc.own_method("Merge")
-    env = {}
-    st_end = st_start = None
-    for n in ast.walk(mg):
-        if isinstance(n, ast.Assign) and isinstance(n.targets[0], ast.Name) and isinstance(n.value, ast.Call) and dotted(n.value.func) in ("min", "max"):
-            f = dotted(n.value.func)
-            args = [unparse(a) for a in n.value.args]
-            if f == "max":
-                st_end = (n.targets[0].id, args)
-            else:
-                st_start = (n.targets[0].id, args)
+    from ..sem import local_env as _le, resolve as _resolve
+
+    m_env = _le(mg)
     tup = [n for n in ast.walk(mg) if isinstance(n, ast.Assign) and isinstance(n.value, ast.Tuple) and len(n.value.elts) == 2]
-    good = st_end is not None and st_start is not None and sorted(st_end[1]) == sorted(["result[1]", "arg.GetEnd()"]) and sorted(st_start[1]) == sorted(["result[0]", "arg.GetBegin()"])
-    good = good and bool(tup) and [unparse(e) for e in tup[0].value.elts] == [st_start[0], st_end[0]]
+    st_start = st_end = None
+    if tup:
+        e0, e1 = (_resolve(e, m_env) for e in tup[0].value.elts)
+        if isinstance(e0, ast.Call) and dotted(e0.func) == "min":
+            st_start = sorted(unparse(a) for a in e0.args)
+        if isinstance(e1, ast.Call) and dotted(e1.func) == "max":
+            st_end = sorted(unparse(a) for a in e1.args)
+    acc = unparse(tup[0].targets[0]) if tup else "result"
+    good = st_start == sorted([f"{acc}[0]", "arg.GetBegin()"]) and st_end == sorted([f"{acc}[1]", "arg.GetEnd()"])
     col.check(good, "R20.3", f"{ASTF}::Location.Merge hull", "begin = min of begins, end = max of ends, result = (begin, end)",
               f"hull is computed as start={st_start}, end={st_end}: not min over begins / max over ends", ASTF, mg)
     loops = [n for n in ast.walk(mg) if isinstance(n, ast.For)]
